@@ -1,5 +1,6 @@
 import Gsp.Model.Codec
 import Gsp.Props.C03
+import Gsp.Lemmas.SmtPerm
 /-! C13 — binary serialization round-trips to an observationally equal merklizer. -/
 namespace Gsp.Props.C13
 open Gsp Gsp.Rdf Gsp.Smt Gsp.Mz Gsp.Codec
@@ -56,6 +57,11 @@ theorem restored_same_content (kvs₁ kvs₂ : List (Nat × Nat)) (t₁ t₂ : T
     (h₁ : addAll kvs₁ .empty = .ok t₁) (h₂ : addAll kvs₂ .empty = .ok t₂) :
     ∀ q, lookup q t₁ 0 = lookup q t₂ 0 :=
   C03.content_perm_indep kvs₁ kvs₂ t₁ t₂ hp h₁ h₂
+
+/-- … and in fact the very same tree, hence the same root for any node hash -/
+theorem restored_same_tree (kvs₁ kvs₂ : List (Nat × Nat)) (t₁ t₂ : T) (hp : kvs₁.Perm kvs₂)
+    (h₁ : addAll kvs₁ .empty = .ok t₁) (h₂ : addAll kvs₂ .empty = .ok t₂) : t₁ = t₂ :=
+  addAll_perm kvs₁ kvs₂ t₁ t₂ hp h₁ h₂
 
 /-- **Caller-provided tree**: restoring succeeds only if that tree already has the recorded root -/
 theorem provided_tree_only_if_root (P : List Nat → Nat) (h : Hasher) (t₀ : T) (ts : List Tok) (r : Restored)
